@@ -1,2 +1,148 @@
+"""C07 - styled-run extraction follows standard SGR semantics (also the extractor half of C03).
+
+ S  MC_SgrEnum's invariant "combined = separate" on the specification; MC_SgrRoundTrip (Combined, LenientCoversStrict).
+ A  MC_SgrEnum: every sequence of up to G attribute groups over the representative code set, in the combined and the
+    separate spelling, followed by a marker character, with the set of styles the lenient SGR reading allows;
+    replayed through WinconBytes for EVERY chunking of the input (2^(n-1)); merged runs must be chunk-independent.
+ B  grammar texts interleaving UTF-8 text, SGR up to 32 parameters, other CSI/OSC/ESC, with seeded chunkings;
+    every extract_next call validated by Trace_Wincon (parser spec driving Sgr!Apply; candidate-set judge).
+"""
+import json, os
+import vlib
+from props.c02 import mk_cfg
+
+FLAGS = {"AcceptIntermediatesIgnored": False}
+
+
+def enum(chk, vh, groups, full, upto):
+    wd = vlib.workdir(chk.prop + "-sgrenum")
+    cfg = mk_cfg("spec/mc/MC_SgrEnum.cfg", os.path.join(wd, "e.cfg"), {"Groups": groups, "UseFull": full})
+    path = os.path.join(wd, "cases.ndjson")
+    n = [0]
+    with open(path, "w") as f:
+        def sink(o):
+            f.write(json.dumps(o, separators=(",", ":")) + "\n")
+            n[0] += 1
+            if n[0] == 500:
+                chk.sample({"sgr_case": o})
+        r = vlib.tlc_run("spec/mc/MC_SgrEnum.tla", cfg, chk.prop + "-sgrenum", workers=8, payload_sink=sink, timeout=6000, xmx="8g")
+    if not r.ok:
+        raise vlib.ToolError("MC_SgrEnum failed (%s): combined and separate spellings differ on the specification?\n%s" % (r.violated, vlib.tlc_counterexample(r)))
+    chk.add_tlc(r, "A_sgr_enum_g%d_%s" % (groups, "full" if full else "small"))
+    out = vlib.run_harness(vh, ["wincon-replay", path, upto], timeout=7200).stdout.strip().split("\n")
+    for l in out:
+        o = json.loads(l)
+        if "mismatch" in o:
+            m = o["mismatch"]
+            chk.violation("WinconBytes on %s (chunks %s): observed %s; specification allows styles %s / text %s"
+                          % (bytes(m["input"]), m["chunks"], json.dumps(m["observed"])[:300], json.dumps(m["allowed"])[:300], m["text"]),
+                          {"kind": "wincon-case", "case": m})
+        else:
+            s = o["summary"]
+            chk.evaluations += s["runs"]
+            chk.nontrivial_count += s["cases"]
+            chk.traces += s["cases"]
+            chk.part("A_sgr_enum_g%d_%s" % (groups, "full" if full else "small"), sequences=s["cases"], chunked_runs=s["runs"], all_chunkings_up_to=upto, exhaustive=True)
+            if s["cases"] == 0:
+                raise vlib.ToolError("empty SGR enumeration")
+
+
+def traces(chk, vh, shards, streams, target):
+    wd = vlib.workdir(chk.prop + "-wtraces")
+    jobs = []
+    for s in range(shards):
+        seed = chk.seed * 1000 + s
+        p = os.path.join(wd, "w%d.ndjson" % s)
+        out = vlib.run_harness(vh, ["wincon-record", seed, streams, target, p]).stdout
+        jobs.append((p, seed, json.loads(out.strip().split("\n")[-1])["summary"]))
+
+    def val(j):
+        ok, rej, res = vlib.tlc_trace(j[0], "Trace_Wincon", "%s-w-%d" % (chk.prop, j[1]), consts=FLAGS, timeout=3000)
+        return j, ok, rej, res
+    calls = 0
+    for (p, seed, summ), ok, rej, res in vlib.parallel(val, jobs, jobs=8):
+        chk.add_tlc(res)
+        calls += summ["calls"]
+        chk.traces += summ["streams"]
+        chk.nontrivial_count += summ["streams"]
+        if not ok:
+            lines = open(p).read().split("\n")
+            at = rej["reject_at"] - 1
+            start = at
+            while start > 0 and json.loads(lines[start])["new"] != 1:
+                start -= 1
+            evs = [json.loads(l) for l in lines[start:at + 1]]
+            tail = b"".join(bytes(e["in"]) for e in evs)[-120:]
+            chk.violation("recorded extractor trace (seed %d) rejected by Trace_Wincon at call %d: input so far ...%r, runs of the call %s"
+                          % (seed, rej["reject_at"], tail, json.dumps(evs[-1]["runs"])[:400]), {"kind": "wincon-trace", "events": evs})
+    chk.evaluations += calls
+    chk.part("B_traces_extractor", shards=shards, calls=calls, bytes=sum(j[2]["bytes"] for j in jobs))
+    chk.sample({"extract_next_event": json.loads(open(jobs[0][0]).readline())})
+
+
 def chunk_part(chk, vh, quick):
-    pass
+    """C03, extractor half: every chunking of the enumerated SGR inputs, seeded chunkings of long texts"""
+    enum(chk, vh, 2, False, 14)
+    traces(chk, vh, 4 if quick else 24, 10, 300 if quick else 1200)
+
+
+def run(chk):
+    vh = vlib.build_harness("vh")
+    quick = chk.tier == "quick"
+    chk.rule = ("A: all sequences of <= G groups over a 44-spelling representative set (single codes incl. empty/leading zeros/unknown, 4:n, "
+                "38/48/58 in ';' and ':' spellings, 256 and RGB) x combined/separate x every chunking; B: grammar texts x seeded chunkings "
+                "(every case contains an SGR sequence)")
+    chk.assumptions = ["codes the statement is silent about (5 6 22-29 59) may have their standard effect or none",
+                       "selecting an underline kind switches it on and may replace any previously selected kinds; 4:0 and 0 clear all",
+                       "DEL is not counted as text"]
+    wd = vlib.workdir("c07-s")
+    r = vlib.tlc_run("spec/mc/MC_SgrRoundTrip.tla", mk_cfg("spec/mc/MC_SgrRoundTrip.cfg", os.path.join(wd, "rt.cfg"), {"Big": False}), "c07-rt", workers=8, timeout=3000)
+    if not r.ok:
+        raise vlib.ToolError("MC_SgrRoundTrip failed (%s)" % r.violated)
+    chk.add_tlc(r, "S_combined_equals_separate")
+    enum(chk, vh, 2, True, 12)
+    enum(chk, vh, 3, False, 12 if quick else 16)
+    if not quick:
+        enum(chk, vh, 3, True, 8)
+    traces(chk, vh, 8 if quick else 48, 12 if quick else 24, 300 if quick else 1500)
+    chk.exhaustive = False
+
+
+def replay(obj):
+    vh = vlib.build_harness("vh")
+    wd = vlib.workdir("replay")
+    if obj["kind"] == "wincon-case":
+        m = obj["case"]
+        p = os.path.join(wd, "c.ndjson")
+        vlib.write_lines(p, [{"i": m["input"], "allowed": m["allowed"], "text": m["text"]}])
+        out = vlib.run_harness(vh, ["wincon-replay", p, 16]).stdout
+        print(out)
+        return 1 if '"mismatch"' in out else 0
+    p = os.path.join(wd, "t.ndjson")
+    for e in obj["events"]:
+        print(json.dumps(e)[:400])
+    vlib.write_lines(p, obj["events"])
+    ok, rej, _ = vlib.tlc_trace(p, "Trace_Wincon", "replay-c07", consts=FLAGS)
+    print("recorded calls:", "accepted" if ok else "rejected at call %d" % rej["reject_at"])
+    return 0 if ok else 1
+
+
+def selftest():
+    vh = vlib.build_harness("vh")
+    wd = vlib.workdir("c07-self")
+    p = os.path.join(wd, "t.ndjson")
+    vlib.run_harness(vh, ["wincon-record", 2, 6, 200, p])
+    ok, _, _ = vlib.tlc_trace(p, "Trace_Wincon", "c07-self-a", consts=FLAGS)
+    if not ok:
+        return False
+    lines = open(p).read().split("\n")
+    idx = next(i for i, l in enumerate(lines) if '"eff":[]' in l and '"runs":[[' in l and i > 10)
+    o = json.loads(lines[idx]); o["runs"][0][0]["eff"] = ["BOLD"] if not o["runs"][0][0]["eff"] else []
+    lines[idx] = json.dumps(o, separators=(",", ":"))
+    open(p, "w").write("\n".join(lines))
+    ok, rej, _ = vlib.tlc_trace(p, "Trace_Wincon", "c07-self-b", consts=FLAGS)
+    if ok or rej["reject_at"] != idx + 1:
+        return False
+    c = os.path.join(wd, "c.ndjson")
+    vlib.write_lines(c, [{"i": [27, 91, 49, 109, 88], "allowed": [{"fg": ["none"], "bg": ["none"], "ul": ["none"], "eff": ["ITALIC"]}], "text": [88]}])
+    return '"mismatch"' in vlib.run_harness(vh, ["wincon-replay", c, 8]).stdout
